@@ -779,6 +779,17 @@ func memModel() porcupine.Model {
 	}
 }
 
+// yieldFilter is registered as the mempool's transaction filter, the place the application's
+// CheckTx occupies in a node: it accepts everything after giving up the processor a few times.
+type yieldFilter struct{}
+
+func (yieldFilter) CheckTx(gtypes.Tx) (bool, error) {
+	for i := 0; i < 4; i++ {
+		runtime.Gosched()
+	}
+	return true, nil
+}
+
 type concMem struct {
 	rep    report
 	mp     *mempool.Mempool
@@ -819,6 +830,17 @@ func (c *concMem) history(hid int64) {
 	var foreign []int
 	for i := 0; i < nForeign; i++ {
 		foreign = append(foreign, mk())
+	}
+	// contested transactions: submitted by a client while a block that contains them (proposed by
+	// another node) is being committed - what happens to a transaction this node is still receiving
+	// by gossip when the block carrying it arrives
+	var contested []int
+	for i := 0; i < 1+rng.Intn(2); i++ {
+		id := mk()
+		contested = append(contested, id)
+		k := rng.Intn(nsub)
+		at := rng.Intn(len(lists[k]) + 1)
+		lists[k] = append(lists[k][:at:at], append([]int{id}, lists[k][at:]...)...)
 	}
 	withFlush := rng.Intn(6) == 0
 	rounds := 3 + rng.Intn(3)
@@ -885,6 +907,15 @@ func (c *concMem) history(hid int64) {
 			if r < len(foreign) {
 				ids = append(ids, foreign[r])
 			}
+			if r < len(contested) {
+				already := false
+				for _, id := range ids {
+					already = already || id == contested[r]
+				}
+				if !already {
+					ids = append(ids, contested[r])
+				}
+			}
 			commit(nsub, ids)
 			runtime.Gosched()
 		}
@@ -906,6 +937,7 @@ func (c *concMem) history(hid int64) {
 	all := rec.sorted()
 	ops := core(all)
 	run.Count("conc_mem_histories", 1)
+	run.Count("conc_mem_contested_txs", int64(len(contested)))
 	run.Count("conc_mem_observer_reaps", int64(len(all)-len(ops)))
 	run.Count("conc_mem_operations", int64(len(ops)))
 	if withFlush {
